@@ -61,7 +61,7 @@ def run(ctx, report: Report) -> None:
     mmod = src.mod('css_match')
 
     # ---- R1 ---------------------------------------------------------------------------------------------
-    r1 = report.rule('C18-R1', 'value shapes follow the HTML microsyntaxes', floor=6)
+    r1 = report.rule('C18-R1', 'value shapes follow the HTML microsyntaxes', floor=3)
     for name, (full, subset, gap) in REFS.items():
         r = inv.by_name(f'css_match.{name}')
         uses = [c for c in ast.walk(mmod.tree) if isinstance(c, ast.Call) and isinstance(c.func, ast.Attribute)
@@ -138,7 +138,7 @@ def run(ctx, report: Report) -> None:
                                  f'{q}: year argument `{unparse(c.args[0])}` of {cn}() is not bounded within 1..9999 '
                                  f'(interval {iv}): valid HTML years outside that range are rejected or raise')
     # ---- R2 ---------------------------------------------------------------------------------------------
-    r2 = report.rule('C18-R2', 'field bounds, month lengths and the leap-year predicate', floor=5)
+    r2 = report.rule('C18-R2', 'field bounds, month lengths and the leap-year predicate', floor=2)
     for fname, (lo, hi) in BOUNDS.items():
         _, fn = src.func(f'css_match.Inputs.{fname}')
         param = fn.args.args[-1].arg
@@ -202,7 +202,7 @@ def run(ctx, report: Report) -> None:
                      f'proleptic Gregorian calendar says {not got}')
 
     # ---- R4 ---------------------------------------------------------------------------------------------
-    r4 = report.rule('C18-R4', 'range types agree between definition, parser and comparison', floor=3)
+    r4 = report.rule('C18-R4', 'range types agree between definition, parser and comparison', floor=2)
     css_in = None
     pm = src.mod('css_parser')
     for st in pm.tree.body:
